@@ -22,7 +22,8 @@ const (
 type gzipResponseWriter struct {
 	http.ResponseWriter
 	statusCode   int
-	wroteHeader  bool
+	wroteHeader  bool // the handler called WriteHeader (status recorded)
+	headerSent   bool // status and headers were passed to the underlying writer
 	minSize      int
 	level        int
 	contentTypes []string
@@ -36,9 +37,23 @@ func (g *gzipResponseWriter) WriteHeader(code int) {
 		return
 	}
 
+	// Only record the status: the headers can still change until Finish knows
+	// whether the body goes out compressed
 	g.statusCode = code
 	g.wroteHeader = true
-	g.ResponseWriter.WriteHeader(code)
+}
+
+// sendHeader passes the recorded status and the final headers to the underlying writer
+func (g *gzipResponseWriter) sendHeader() {
+	if g.headerSent {
+		return
+	}
+	if !g.wroteHeader {
+		g.statusCode = http.StatusOK
+		g.wroteHeader = true
+	}
+	g.headerSent = true
+	g.ResponseWriter.WriteHeader(g.statusCode)
 }
 
 func (g *gzipResponseWriter) Write(b []byte) (int, error) {
@@ -47,6 +62,7 @@ func (g *gzipResponseWriter) Write(b []byte) (int, error) {
 		// Mark as exceeded and fall back to streaming uncompressed
 		if !g.bufferExceeded {
 			g.bufferExceeded = true
+			g.sendHeader()
 			// Flush existing buffer uncompressed
 			if g.buf.Len() > 0 {
 				_, _ = g.ResponseWriter.Write(g.buf.Bytes())
@@ -60,6 +76,10 @@ func (g *gzipResponseWriter) Write(b []byte) (int, error) {
 }
 
 func (g *gzipResponseWriter) Flush() {
+	// Nothing has been sent while the body is still being buffered
+	if !g.headerSent {
+		return
+	}
 	if f, ok := g.ResponseWriter.(http.Flusher); ok {
 		f.Flush()
 	}
@@ -73,10 +93,6 @@ func (g *gzipResponseWriter) Hijack() (net.Conn, *bufio.ReadWriter, error) {
 }
 
 func (g *gzipResponseWriter) Finish() error {
-	if !g.wroteHeader {
-		g.WriteHeader(http.StatusOK)
-	}
-
 	// If buffer was exceeded, data was already streamed uncompressed
 	if g.bufferExceeded {
 		return nil
@@ -84,11 +100,19 @@ func (g *gzipResponseWriter) Finish() error {
 
 	body := g.buf.Bytes()
 
+	// return body as is when the backend already encoded it
+	if g.Header().Get("Content-Encoding") != "" {
+		g.sendHeader()
+		_, err := g.ResponseWriter.Write(body)
+		return err
+	}
+
 	clHeader := g.Header().Get("Content-Length")
 	if clHeader != "" {
 		cl, err := strconv.Atoi(clHeader)
 		// if Content-Length header found and is less than the minSize then return the body as is.
 		if err == nil && cl < g.minSize {
+			g.sendHeader()
 			_, err := g.ResponseWriter.Write(body)
 			return err
 		}
@@ -96,6 +120,7 @@ func (g *gzipResponseWriter) Finish() error {
 
 	// acts as a fallback when Content-Length is not available.
 	if len(body) < g.minSize {
+		g.sendHeader()
 		_, err := g.ResponseWriter.Write(body)
 		return err
 	}
@@ -103,6 +128,7 @@ func (g *gzipResponseWriter) Finish() error {
 	// return body as is when Content-Type doesn't match specified in Config
 	ct := g.Header().Get("Content-Type")
 	if !matchesContentType(ct, g.contentTypes) {
+		g.sendHeader()
 		_, err := g.ResponseWriter.Write(body)
 		return err
 	}
@@ -110,6 +136,7 @@ func (g *gzipResponseWriter) Finish() error {
 	g.Header().Set("Content-Encoding", "gzip")
 	// Remove Content-Length since compressed size differs from original
 	g.Header().Del("Content-Length")
+	g.sendHeader()
 
 	gz, err := gzip.NewWriterLevel(g.ResponseWriter, g.level)
 	if err != nil {
